@@ -13,6 +13,7 @@ from specs.dbmodel import DBWorld, BASE, S1, S2, S3, S_MISSING, S_DIR
 
 S_NEW = b'9.000000-77-900-33188-0-0'        # stamp of a file created by this job (fresh inode, fresh mtime)
 S_NEW2 = b'9.500000-78-901-33188-0-0'
+S_OLDER = b'0.500000-78-901-33188-0-0'     # a file written by the script with an mtime older than anything recorded (cp -p)
 
 
 def mtime_of(stamp):
@@ -218,6 +219,8 @@ def install(eng):
     s['Metadata::modified'] = lambda e, ci, a, sp: ok(Opaque('SystemTime', deref_all(a[0]).data['mtime']))
     s['<SystemTime as PartialEq>::ne'] = lambda e, ci, a, sp: deref_all(a[0]).data != deref_all(a[1]).data
     s['<SystemTime as PartialEq>::eq'] = lambda e, ci, a, sp: deref_all(a[0]).data == deref_all(a[1]).data
+    for op, fn in (('lt', lambda x, y: x < y), ('le', lambda x, y: x <= y), ('gt', lambda x, y: x > y), ('ge', lambda x, y: x >= y)):
+        s['<SystemTime as PartialOrd>::' + op] = (lambda fn: lambda e, ci, a, sp: fn(float(deref_all(a[0]).data), float(deref_all(a[1]).data)))(fn)
     s['io::_eprint'] = lambda e, ci, a, sp: UNIT
     s['_eprint'] = s['io::_eprint']
     s['drop fs::File'] = lambda e, v: None
